@@ -1,9 +1,10 @@
 (* Extraction of the executable model (Layer I: World.step') and, later, of the Layer S/F judges.
    Only ExtrOcamlBasic is used: N, positive, nat and byte stay the inductive types. *)
 Require Import ExtrOcamlBasic.
-Require Import BS.Bytes BS.Common BS.FS BS.Reader BS.Seek BS.Series BS.World.
+Require Import BS.Bytes BS.Common BS.Api BS.FS BS.Reader BS.Seek BS.Series BS.World BS.Format BS.Spec BS.SpecStep BS.Judge.
 From Coq Require Import Strings.Byte NArith.
 Extraction Language OCaml.
 Cd "../build/extract".
-Extraction "model.ml" World.step' World.init_world World.run Byte.to_N Byte.of_N BS.Bytes.byte_of_N.
+Extraction "model.ml" World.step' World.init_world World.run Byte.to_N Byte.of_N BS.Bytes.byte_of_N
+  Judge.judge_step Judge.judge_files Judge.judge_init Spec.ss_det Format.decode Format.parse_file Format.encode.
 Cd "../../coq".
